@@ -227,6 +227,22 @@ def exact_partial(e, v, env):
 
 
 # ------------------------------------------------------------------ C01
+def augmented_assignments(rep, rng, n):
+    """s += t and friends on names bound to existing expressions (implementation only): a new node, the old one intact"""
+    b = Batch()
+    idx = []
+    for _ in range(n):
+        e1 = gen.rexpr(rng, rng.randint(1, 6), [2, 3], weights={'Add': 10, 'Mul': 10, 'Minus': 3, 'Neg': 2, 'Sin': 2, 'NthPow': 2})
+        e2 = gen.rexpr(rng, rng.randint(1, 4), [2, 3])
+        p = gen.positive_point(rng, [2, 3])
+        idx.append(b.add('AUGASSIGN %s %s %s' % (sx.point_sx(p), sx.to_sx(e1), sx.to_sx(e2))))
+    b.run(model=False)
+    for i in idx:
+        rep.stats['augmented_assignment_' + b.impl[i].split(':')[0].split(' ')[0]] += 1
+        if b.impl[i].startswith(('bad', 'ERROR')):
+            rep.oracle_fail('augmented assignment: %s' % b.impl[i], b, [i])
+
+
 def sensitive_parameter_cases():
     """(expression, point) pairs on which a parameter or constant that is stored slightly off (snapped to a nearby
     integer or to e, rounded to some digits, taken with a tolerance) changes the value grossly or changes its kind:
@@ -317,6 +333,7 @@ def check_C01(ctx):
     rep.stats['exact_fragment_cases'] = exact_checked
     rep.stats.update({'head_' + k: v for k, v in heads.items()})
     rep.stats.update({'outcome_' + k: v for k, v in kinds.items()})
+    augmented_assignments(rep, rng, sizes(tier, 40, 400))
     shared_evaluation(ctx, rep)
     import props2
     props2.history_correspondence(ctx, rep, sizes(tier, 200, 4000), ('at',), maxlen=sizes(tier, 12, 30),
@@ -498,6 +515,7 @@ def check_C02(ctx):
         if o[0] == 'PYERR' and 'Overflow' not in o[1]:
             rep.oracle_fail('foreign exception %s' % o[1], b, [i])
     rep.stats.update({'outcome_' + k: v for k, v in kinds.items()})
+    augmented_assignments(rep, rng, sizes(tier, 40, 400))
     # the same question asked of USED objects: evaluations that follow failed evaluations, derivative
     # queries and evaluations of sharing expressions at other points (boundary points included)
     import props2
@@ -542,6 +560,8 @@ def bundle_cases(rng, tier, quick, thorough, special=None):
     exprs = expr_pool(rng, n, max_size=12)
     if special:
         exprs = special + exprs
+    for e_, t_ in gen.hash_collision_pairs(rng, [2, 3], max(6, n // 40)):
+        exprs += [e_, t_]            # unequal, equal hashes, next to one another in the same process
     cases = []
     for e in exprs:
         ids = sx.var_ids(e)
@@ -923,6 +943,9 @@ def check_C05(ctx):
         a_, c_ = (hd, list(L)), (hd, list(L) + [t])
         exprs += [rng.choice([('Minus', a_, c_), ('Minus', c_, a_), ('Divide', a_, c_), ('Divide', c_, a_),
                               ('Minus', ('Sin', a_), ('Sin', c_)), ('Add', [a_, ('Neg', c_)]), ('Mul', [c_, ('Recip', a_)])])]
+    # unequal expressions with equal hashes, differentiated one after the other in the same process
+    for e_, t_ in gen.hash_collision_pairs(rng, [2, 3], sizes(tier, 25, 300)):
+        exprs += [e_, t_]
     w = ('V', 4)
     exprs += [('Mul', [('Neg', ('V', 2)), ('Neg', ('V', 3)), ('Neg', ('Sin', ('V', 2))), w]),
               ('Mul', [('Neg', ('V', 2)), ('Neg', ('V', 3)), ('Neg', w), ('Neg', ('Cos', w)), ('Neg', ('C', 2))]),
@@ -937,6 +960,10 @@ def check_C05(ctx):
         idx = {'SYNFWD': b.add('SYNFWD %d %s' % (v, es)), 'SYNREV': b.add('SYNREV %s' % es),
                'PEXPR': b.add('PEXPR %d %s' % (v, es)), 'DEXPR': b.add('DEXPR %d %s' % (v, es)),
                'PTRACE': b.add('PTRACE %d %s' % (v, es)), 'DTRACE': b.add('DTRACE %s' % es), 'VARS': b.add('VARS %s' % es)}
+        if any(h in ('NthPow', 'NthRoot') for h in sx.heads(e)) and rng.random() < 0.6:
+            # the same questions with every integer parameter n spelled as an integral float (NthRoot(u, 3.0))
+            idx['NFPEXPR'] = b.add('NF PEXPR %d %s' % (v, es))
+            idx['NFDEXPR'] = b.add('NF DEXPR %d %s' % (v, es))
         pts = points_for(rng, e, 2)
         idx['PTS'] = [(p, b.add('EVAL %s %s' % (sx.point_sx(p), es)), b.add('FWD %d %s %s' % (v, sx.point_sx(p), es)),
                        b.add('PEARLY %d %s %s' % (v, sx.point_sx(p), es)), b.add('DEARLYAT %d %s %s' % (v, sx.point_sx(p), es)))
@@ -952,6 +979,15 @@ def check_C05(ctx):
         for r in ('SYNFWD', 'SYNREV', 'PEXPR', 'DEXPR'):
             ok = rep.corr(b, idx[r], r)
             agree = agree and (ok or b.status[idx[r]] in ('fuel', 'range'))
+        for r in ('NFPEXPR', 'NFDEXPR'):
+            if r in idx:
+                ok = rep.corr(b, idx[r], r)
+                o_ = core.parse_outcome(b.impl[idx[r]]) if b.impl[idx[r]].startswith(('PYERR', 'ERROR')) else None
+                if not ok and b.status[idx[r]] == 'disagree' and (b.impl[idx[r]].startswith(('PYERR', 'ERROR runner'))
+                                                                   and 'Overflow' not in b.impl[idx[r]]):
+                    rep.oracle_fail('%s with n written as an integral float: no derivative expression is produced (%s) although '
+                                    'the parameter is documented as accepted' % (r[2:], b.impl[idx[r]][:80]), b, [idx[r]])
+                _ = o_
         if sx.size(e) >= 2:
             rep.distinct.add((sx.to_sx(e), v))
         rep.sample({'expr': sx.to_sx(e), 'var': v, 'as_expression': b.impl[idx['PEXPR']]})
